@@ -373,7 +373,33 @@ func concTask(r *prng.Rand, w drive.CWorld, cat *model.Catalog, typePool []int) 
 			t.LSTSymbols = append(symbolTexts(vals), "extra")
 		}
 		return t
-	case 2, 3: // read a history of tables importing the shared tables
+	case 2, 3: // read a history of tables importing the shared tables, or a document of every scalar kind
+		if r.Chance(1, 3) {
+			// readers of general documents: numbers, decimals, timestamps with assorted offsets, lobs, nested containers
+			o := gen.Swarm(r)
+			o.NoSID = true
+			vals := gen.Sanitize(gen.Doc(r, o, 5))
+			for k := r.Intn(3); k > 0; k-- {
+				ts := gen.TS(r, o)
+				ts.Prec = model.Second
+				ts.Year = r.Range(1900, 2100)
+				ts.FracDigits, ts.Frac = 0, ""
+				ts.Unknown = false
+				ts.Offset = []int{-720, -480, -1, 1, 60, 90, 330, 345, 600, 840}[r.Intn(10)]
+				vals = append(vals, model.NewTS(*ts))
+			}
+			var out *render.Out
+			if r.Bool() {
+				out = render.Binary(render.Values(vals), render.SwarmBin(r.Fork()))
+			} else {
+				out = render.Text(render.Values(vals), render.SwarmText(r.Fork()))
+			}
+			kind := "read"
+			if r.Bool() {
+				kind = "decode"
+			}
+			return drive.CTask{Kind: kind, Data: out.Bytes, Plan: concPlan(r, len(out.Bytes))}
+		}
 		binary := r.Bool()
 		events := genHistory(r.Fork(), cat, binary)
 		ex := expectHistory(events, cat)
